@@ -183,6 +183,10 @@ pub fn gen_case(rng: &mut Rng) -> Case {
         if rng.chance(1, 20) {
             width += 0.5;
         }
+        // fractional advances on either side of the rounding boundary (a width in (0, 1/2) is a zero advance in hmtx)
+        if rng.chance(1, 25) {
+            width += *rng.pick(&[0.25, 0.75, 0.375]);
+        }
         // rarely an advance the code must reject (944e88e): negative, or beyond u16 after rounding
         if reject_mode && rng.chance(1, 6) {
             width = *rng.pick(&[-1.0, -0.5, -0.75, 65535.5, 65536.0, 70000.0, 65535.25, -300.0]);
